@@ -74,6 +74,12 @@ def run(ck, rng, tier):
             lab = [float(rng.random() < 0.85) for _ in range(n)]
             lab[0], lab[1] = 1.0, 0.0
             scores = [rng.gauss(0.3 * lab[i], 1.0) for i in range(n)]
+            # ... with negatives ranked between the best and the second-best positive (the first, lowest horizontal piece of the curve)
+            top_ = max(scores)
+            ip_ = lab.index(1.0)
+            scores[ip_] = top_ + 4.0
+            for q_, in_ in enumerate([i for i in range(n) if lab[i] == 0.0][:3]):
+                scores[in_] = top_ + 3.0 - 0.5 * q_
             ck.count("roc with more than 100 positives")
         if c in (6, 7, 8):
             # a score equal (or next) to the missing-value code: the code only has a meaning in the TRUTH vector, a score
